@@ -734,19 +734,14 @@ func (c *SpecCtx) call(e *SExpr) Val {
 			}
 			return scalar(g.RetT, App(g.Name, g.Ret, ts...))
 		}
-		// ghost result of the latest call to a callee: Callee$name(args)
-		if i := strings.Index(fn.Tok, "$"); i > 0 {
-			callee, gname := fn.Tok[:i], fn.Tok[i+1:]
-			for key, inst := range c.ex.lastGhost {
-				if key == callee || strings.HasSuffix(key, "."+callee) {
-					if g, ok := inst[gname]; ok {
-						var ts []*Term
-						for _, a := range args {
-							ts = append(ts, c.evalTerm(a))
-						}
-						return scalar(g.RetT, App(g.Name, g.Ret, ts...))
-					}
+		// ghost result of the latest call to a callee on this path: Callee$name(args)
+		if strings.Contains(fn.Tok, "$") {
+			if g, ok := c.varState().callGhosts[fn.Tok]; ok {
+				var ts []*Term
+				for _, a := range args {
+					ts = append(ts, c.evalTerm(a))
 				}
+				return scalar(g.RetT, App(g.Name, g.Ret, ts...))
 			}
 		}
 		// uninterpreted spec function: uf_name(args)
